@@ -604,6 +604,16 @@ func (p *Process) handleOutput(pipe io.ReadCloser, output string, handler func(m
 	reader := bufio.NewReader(pipe)
 	for {
 		line, err := reader.ReadString('\n')
+		// ReadString returns the data read before an error: a final line without a trailing newline arrives
+		// together with io.EOF and must not be dropped
+		if len(line) > 0 {
+			if p.procConf.ReadyLogLine != "" && p.procState.Health == types.ProcessHealthUnknown && strings.Contains(line, p.procConf.ReadyLogLine) {
+				p.procState.Health = types.ProcessHealthReady
+				p.readyLogCancelFn(nil)
+			}
+			p.checkElevatedProcOutput(line)
+			handler(strings.TrimSuffix(line, "\n"))
+		}
 		if err != nil {
 			if err == io.EOF {
 				break
@@ -618,12 +628,6 @@ func (p *Process) handleOutput(pipe io.ReadCloser, output string, handler func(m
 				Msgf("error reading from %s", output)
 			break
 		}
-		if p.procConf.ReadyLogLine != "" && p.procState.Health == types.ProcessHealthUnknown && strings.Contains(line, p.procConf.ReadyLogLine) {
-			p.procState.Health = types.ProcessHealthReady
-			p.readyLogCancelFn(nil)
-		}
-		p.checkElevatedProcOutput(line)
-		handler(strings.TrimSuffix(line, "\n"))
 	}
 	close(done)
 }
